@@ -264,6 +264,10 @@ func (o *oracle) step(t int, r stepResult, obs []refObs) {
 		o.fail("failed-constructor-left-key-present",
 			fmt.Sprintf("thread %d: LoadOrNew(%d) returned its constructor's error but the key is still in the pool (References = %d)", t, key, obs[key].n))
 	}
+	if r.op.kind == opClose && r.opDone && o.tainted == "" && len(o.held[t]) > 0 {
+		// the cleanup returned: the client must have given back everything it remembered
+		o.fail("client-cleanup-left-references", fmt.Sprintf("client %d: its cleanup returned but %d reference(s) it took are still counted (first: key %d); nobody will ever release them", t, len(o.held[t]), o.held[t][0].key))
+	}
 	if ret.badType && o.tainted == "" {
 		o.fail("foreign-value", fmt.Sprintf("thread %d: a value of a foreign type came back", t))
 	}
